@@ -23,6 +23,7 @@ import Biogo.Go.Wire
 import Biogo.Model.PalsOracle
 import Biogo.Model.PalsOptimise
 import Biogo.Spec.PalsKernel
+import Biogo.Spec.Filter
 import Biogo.Generated.PalsConsts
 
 namespace Biogo.Drive.C15
@@ -43,10 +44,14 @@ structure Plant where
   bPos : Nat
   bLen : Nat
   comp : Bool
+  /-- 0: the calibrated class of the first wave (recall always demanded); 1: the boundary class
+      (recall demanded exactly when the pair is guaranteed to be seeded, `guaranteedSeeded`) -/
+  cls : Nat := 0
 
 def parsePlant (s : String) : Option Plant :=
   match (s.splitOn ":").mapM parseNat with
-  | some [a, al, b, bl, c] => some ⟨a, al, b, bl, c == 1⟩
+  | some [a, al, b, bl, c] => some ⟨a, al, b, bl, c == 1, 0⟩
+  | some [a, al, b, bl, c, k] => some ⟨a, al, b, bl, c == 1, k⟩
   | _ => none
 
 def parsePlants (s : String) : Option (List Plant) :=
@@ -125,6 +130,45 @@ def modelWhy (minLen minIdMilli : Int) (o : HitObs) : Option String :=
       if lhs > 2 * den || lhs < -2 * den then some s!"model-error-formula {showHit o} e12={e12} errNum={h.errNum}"
       else none
 
+/-- do `a[ai …]` and `b[bi …]`, `len` columns along one diagonal, contain a window of `n` columns
+    with at most `e` mismatches? -/
+def windowOn (a b : Array Nat) (n e ai bi len : Nat) : Bool :=
+  if len < n then false
+  else
+    let pm := Biogo.Spec.Filter.prefixLoop a b len ai bi 0 #[0]
+    !(Biogo.Spec.Filter.windowsLoop pm n e (len + 1 - n) 0 []).isEmpty
+
+/-- **the guaranteed class**: the two copies of the planted pair (copy B taken in the sequence the
+    strand's `Align` works on) contain an ε-match of the filter parameters `Optimise` chose —
+    `n = MinMatch` columns on one diagonal (shifted by at most 12 against the copies' starts) with
+    at most `e = MaxError` substitutions, inside both copies.  By `filter_complete`,
+    `merger_covers_hits` and `seed_prescreen_passes` (`epsmatch_inside_trapezoid`,
+    `Properties/C15_chain.lean`) such a pair lies in a trapezoid at least `k` high, which
+    `AlignTraps` hands to the kernel. -/
+def guaranteedSeeded (target working : Array Nat) (n e : Nat) (aPos aLen bPos bLen : Nat) : Bool :=
+  (List.range 25).any fun s =>
+    -- diagonal shift s - 12: copy A from offset max(0, 12 - s)… against copy B from max(0, s - 12)…
+    let da := 12 - s
+    let db := s - 12
+    if da ≥ aLen || db ≥ bLen then false
+    else
+      let len := min (aLen - da) (bLen - db)
+      aPos + da + len ≤ target.size && bPos + db + len ≤ working.size &&
+      windowOn target working n e (aPos + da) (bPos + db) len
+
+/-- is recall of this planted pair demanded?  Class 0: always.  Class 1: exactly when the pair is
+    guaranteed to be seeded (in a self comparison: in either mirror image). -/
+def demanded (self : Bool) (target query working1 : Array Nat) (n e : Nat) (p : Plant) : Bool :=
+  if p.cls == 0 then true
+  else
+    let qLen := query.size
+    if p.comp then
+      guaranteedSeeded target working1 n e p.aPos p.aLen (qLen - (p.bPos + p.bLen)) p.bLen ||
+      (self && guaranteedSeeded target working1 n e p.bPos p.bLen (qLen - (p.aPos + p.aLen)) p.aLen)
+    else
+      guaranteedSeeded target query n e p.aPos p.aLen p.bPos p.bLen ||
+      (self && guaranteedSeeded target query n e p.bPos p.bLen p.aPos p.aLen)
+
 /-- is the planted pair recovered by this hit?  B coordinates of strand-1 hits are mapped back
     to the query's own coordinates.  In a self comparison only one of the two mirror images
     of a pair is searched, so the roles of the copies may be exchanged. -/
@@ -182,8 +226,17 @@ def handleCase (self : Bool) (minLen minIdMilli maxMemMB : Int) (plants : List P
         -- trivial self match
         let trivial := self && hits.any fun o => o.strand == 0 && o.h.abpos == o.h.bbpos && o.h.aepos == o.h.bepos
         if trivial then fail "trivial-self-match-reported" tags else
-        match plants.find? (fun p => !hits.any (recovers self query.size p)) with
-        | some p => fail s!"planted-repeat-not-recovered {p.aPos}:{p.aLen}:{p.bPos}:{p.bLen}:{if p.comp then 1 else 0}" tags
+        let boundary := plants.filter (·.cls == 1)
+        let tags := tags ++
+          (if boundary.any (fun p => demanded self target query working1 n e p) then ["boundary-guaranteed"] else []) ++
+          (if boundary.any (fun p => !demanded self target query working1 n e p) then
+             (if boundary.any (fun p => !demanded self target query working1 n e p && hits.any (recovers self query.size p))
+              then ["boundary-unguaranteed-recovered"] else []) ++
+             (if boundary.any (fun p => !demanded self target query working1 n e p && !hits.any (recovers self query.size p))
+              then ["boundary-unguaranteed-missed"] else [])
+           else [])
+        match plants.find? (fun p => demanded self target query working1 n e p && !hits.any (recovers self query.size p)) with
+        | some p => fail s!"planted-repeat-not-recovered {p.aPos}:{p.aLen}:{p.bPos}:{p.bLen}:{if p.comp then 1 else 0}:{p.cls}" tags
         | none =>
           match hits.findSome? (modelWhy minLen minIdMilli) with
           | some w => diff w tags
